@@ -127,7 +127,7 @@ def sweep_check(check, case, max_points=250, offset=0, grans=("line", "ccall")):
     return n
 
 
-def unit_interrupted(prop, unit_name, quick=12, thorough=300, max_points=250, doc=None, shards_quick=6, map_case=None):
+def unit_interrupted(prop, unit_name, quick=12, thorough=300, max_points=250, doc=None, shards_quick=6, map_case=None, filter_case=None):
     from hypothesis import strategies as st
 
     def strategy():
@@ -136,6 +136,8 @@ def unit_interrupted(prop, unit_name, quick=12, thorough=300, max_points=250, do
         s = base.strategy()
         if map_case is not None:
             s = s.map(map_case)
+        if filter_case is not None:
+            s = s.filter(filter_case)       # (only to keep the deliberately huge cases of the base unit out of a quadratic sweep)
         return st.fixed_dictionaries({"case": s, "offset": st.integers(0, 10 ** 6)})
 
     def check(case):
